@@ -211,6 +211,8 @@ type harnessEvidence struct {
 	SolverS      float64        `json:"solver_s"`
 	WallS        float64        `json:"wall_s"`
 	Reach        map[string]int `json:"reach"`
+	Fast         int            `json:"branch_decisions_by_byte_domain_propagation"`
+	Summaries    int            `json:"pure_callee_summaries"`
 	Inconclusive []string       `json:"inconclusive,omitempty"`
 }
 
@@ -280,12 +282,12 @@ func cmdRun(args []string) {
 	}
 	for k, r := range runs {
 		cfg := &interp.Config{Prog: prog, Pkg: pkg, Entry: r.Entry, Args: r.Args, Workers: *workers, Solver: *solver,
-			NoPanic: !r.AllowPanic, MaxPaths: r.MaxPaths, MaxSamples: 6, SampleEvery: 13 + seed%7}
+			NoPanic: !r.AllowPanic, MaxPaths: r.MaxPaths, MaxSamples: 6, SampleEvery: 13 + seed%7, NoFastPath: os.Getenv("VERIF_NOFAST") != ""}
 		res := interp.Explore(cfg)
 		he := harnessEvidence{Harness: r.Entry, Args: r.Args, Bound: r.Bound, Paths: res.Stats.Paths, PathsByEnd: res.PathsByEnd,
 			Decisions: res.Stats.Decisions, Checks: res.Stats.Checks, CheckQueries: res.Stats.CheckQueries,
 			Queries: map[string]int{"sat": res.Solver.Sat, "unsat": res.Solver.Unsat, "unknown": res.Solver.Unknown, "errors": res.Solver.Errors},
-			SolverS: res.Solver.Seconds, WallS: res.Wall, Reach: res.Reach, Inconclusive: res.Inconclusive}
+			SolverS: res.Solver.Seconds, WallS: res.Wall, Reach: res.Reach, Inconclusive: res.Inconclusive, Fast: res.Stats.FastDecisions, Summaries: res.Stats.Summaries}
 		for _, need := range r.Require {
 			if res.Reach[need] == 0 {
 				he.Inconclusive = append(he.Inconclusive, "vacuous: required label "+need+" never reached")
@@ -416,7 +418,7 @@ func cmdRun(args []string) {
 	for s := range stubs {
 		al = append(al, "stub: "+s)
 	}
-	al = append(al, "z3 "+*solver+" verdicts are trusted; branch feasibility and every obligation are solver queries over the path condition",
+	al = append(al, "solver "+*solver+" verdicts are trusted; every obligation (verifCheck, assumption feasibility) is a solver query over the path condition; branch feasibility is a solver query except for conditions over a single byte variable whose value set is tracked exactly (byte-domain propagation, counted per harness run; VERIF_NOFAST=1 disables it)",
 		"harness files /verif/harness/*.go injected as /repo/zz_verif_*.go by overlay; SSA regenerated from /repo's working tree on this run")
 	sort.Strings(al)
 	if len(sampleOut) == 0 {
